@@ -30,6 +30,7 @@ def run(ctx):
     prog, rep = ctx.prog, ctx.report
     from rules import C08
     C08.r_callbacks_reusable(prog, rep)
+    C08.r_task_ctor_params(prog, rep)
 
     r = rep.rule("R-TREE-FOLD", "the tree signatures fold the listing value, every child's value and every child's sub-signature (or the nil marker); the "
                                 "structure signature folds filename and mode only", floor=8)
